@@ -107,6 +107,7 @@ def run(prog, R):
                     R.ob("C09.4-subroutine-signature", "SubroutineDef{num_params <- typed params, return_type <- return signature | Void}", ok, s2s.at, s_[:200])
     import C07
     C07.return_type_scope(prog, R, "C09.4-return-type-scope")
+    R.premises(prog, "C09.5-scope-premise", ["C07:C07.1-", "C07:C07.2-"], "every declaration records its written type in the scope it is written in: each body (then / else / loop / case / default / gate / def) is translated in a scope of its own")
     R.premises(prog, "C09.2-literal-value-premise", ["C10:C10.2-", "C10:C10.3-", "C10:C10.4-digit-string"],
                "a literal width / register length reaches the symbol table through IntNumber::value(): its radix, digit string and sibling agreement are C10's obligations")
     # ---- C09.2 no unchecked narrowing cast
@@ -178,6 +179,17 @@ def run(prog, R):
             unresolved = any(s_.startswith("discr(lookup_identifier(") and s_.endswith(".0)") and c != ("eq", 0) for s_, c in cs)
             if not errors_on(p) and not unresolved:
                 silent.append([x for x in cs if "lookup_identifier" in x[0] or "is_const" in x[0]][-2:])
+        # the recorded value of a symbol is used as a width only for a symbol whose *type* is const (the side table also
+        # holds values of non-const variables initialised with a constant expression)
+        nget, badg = 0, []
+        for p in SymExec(prog, dz, max_paths=2000).paths():
+            if not any(nm.endswith("Context::get_const_value") for nm, a_, bb_ in p.calls):
+                continue
+            nget += 1
+            cs = [(show(t), c) for t, c in conds_of(p)]
+            if not any(s_.startswith("is_const(") and truth(c) for s_, c in cs):
+                badg.append(cs[-2:])
+        R.ob("C09.2-designator-const-only", "get_const_value is consulted only under is_const() of the symbol's type", nget >= 1 and not badg, dz.at, f"{nget} paths call get_const_value; without the const test: {badg[:2]}")
         R.ob("C09.2-designator-diagnosed", "a written designator without a usable width is always diagnosed", nn >= 3 and not silent, dz.at,
              f"{nn} paths return None for a written designator; silent ones: {silent[:2]}" if silent else f"{nn} paths return None for a written designator, each with a diagnostic (or the unresolved-identifier diagnostic of the lookup)")
     # ---- C09.3 const side table
